@@ -262,6 +262,7 @@ OnIssue(m, o) ==
          [] n = "sysev" -> [m0 EXCEPT !.pay = Put(@, op[3], newpay(op[3]))]
          [] n = "sysevsig" -> [m0 EXCEPT !.pay = Put(@, op[3], newpay(op[3])), !.sig = Put(@, op[3], op[4])]
          [] n = "reg"   -> IF op[5] > 0 THEN [m0 EXCEPT !.tok = Put(@, op[5], [s |-> op[3], b |-> op[4]])] ELSE m0
+         [] n = "on"    -> IF op[5] > 0 THEN [m0 EXCEPT !.tok = Put(@, op[5], [s |-> op[3], b |-> op[4]])] ELSE m0
          [] n = "once"  -> [m0 EXCEPT !.tok = Put(@, op[4], [s |-> op[2], b |-> op[3]]),
                                       !.oncetok = Put(@, op[2], op[3])]
          [] n \in {"mut", "noreact"} ->
@@ -303,6 +304,7 @@ ApplyEffects(m, op, ret) ==
     LET n == OpName(op) IN
     CASE n = "reg" -> AddReg(m, op[3], op[4], op[2] # "persistent")
       [] n = "once" -> AddReg([m EXCEPT !.alive = @ \cup {op[2]}, !.once = @ \cup {op[2]}], op[2], op[3], TRUE)
+      [] n = "on" -> AddReg([m EXCEPT !.alive = @ \cup {op[3]}], op[3], op[4], op[2] # "persistent")
       [] n = "revoke" -> IF op[2] \in DOMAIN m.tok THEN Revoke(m, m.tok[op[2]].s, m.tok[op[2]].b) ELSE m
       [] n = "desp" -> IF ret = 1 /\ op[2] \in m.aliveE THEN KillEntity(m, op[2]) ELSE m
       [] n = "desprec" -> IF ret = 1 THEN KillEntityRec(m, op[2]) ELSE m
